@@ -4,6 +4,7 @@ from sx import spec as SP, obs as O, term as T
 from . import common as C
 
 ID = 'C16'
+AGEABLE = True        # a quarter of the configurations build their operands as objects with a past (props/common.py)
 ENCODED = ['Fxp.__lt__', 'Fxp.__le__', 'Fxp.__eq__', 'Fxp.__ne__', 'Fxp.__gt__', 'Fxp.__ge__', 'Fxp.get_val', 'Fxp.astype', 'Fxp.raw',
            'Fxp.uraw', 'Fxp.__int__', 'Fxp.__float__', 'Fxp.__bool__', 'Fxp.__call__']
 ASSUMPTIONS = [
